@@ -623,6 +623,10 @@ class Interp:
 
     def s_Assign(self, s, st):
         v = self.eval(s.value, st)
+        # containers are modelled as values: binding a second name to an existing mutable container (x = self.buf) would
+        # make later in-place updates through one name invisible through the other - outside the supported subset
+        if isinstance(v, (Lst, SetLst, MapV)) and isinstance(s.value, (ast.Name, ast.Attribute)):
+            raise Unsupported("aliasing of a mutable container (%s)" % ast.unparse(s.value))
         for t in s.targets:
             self.assign(t, v, st)
         return [st]
